@@ -26,10 +26,16 @@ func SeedFor(base uint64, i uint64) uint64 {
 	return z ^ (z >> 31)
 }
 
-// Execute carries out one simulated run. tape == nil: generate from seed.
+// Generate is passed as the tape to Execute to generate the run from the seed.
+var Generate = []int{-1 << 31}
+
+func isGenerate(tape []int) bool { return len(tape) == 1 && tape[0] == -1<<31 }
+
+// Execute carries out one simulated run: from the seed if tape is Generate,
+// otherwise by replaying tape (an empty or nil tape is the all-zero run).
 func Execute(t *testing.T, p *Property, seed uint64, tier string, tape []int, keepLog bool) *Result {
 	var c *Chooser
-	if tape != nil {
+	if !isGenerate(tape) {
 		c = NewReplayChooser(tape)
 	} else {
 		c = NewChooser(seed, propStream(p.ID))
